@@ -3,7 +3,7 @@
 
 *)
 From Coq Require Import ZArith NArith List Bool Arith.
-From NSG Require Import Base.Prelude Model.Defender Model.Coord Proofs.CoordBase Proofs.CoordInv Proofs.CoordInvConn Proofs.CoordInvDispatch Proofs.CoordInvHandler Proofs.CoordProps Proofs.CoordDirect Proofs.CoordInv2 Proofs.CoordAgentStep Proofs.CoordBarrier Proofs.CoordMeasure Proofs.CoordIsolation Proofs.CoordLimit Proofs.CoordKinds.
+From NSG Require Import Base.Prelude Model.Defender Model.Coord Proofs.CoordBase Proofs.CoordInv Proofs.CoordInvConn Proofs.CoordInvDispatch Proofs.CoordInvHandler Proofs.CoordProps Proofs.CoordDirect Proofs.CoordInv2 Proofs.CoordAgentStep Proofs.CoordBarrier Proofs.CoordMeasure Proofs.CoordIsolation Proofs.CoordLimit Proofs.CoordKinds Proofs.CoordFiles.
 Import ListNotations.
 
 (* the triple appended to the trajectory (action, reward, resulting view) is produced in the same step as the OK response, with the same reward *)
@@ -95,6 +95,31 @@ Theorem C16_files :
           else fl).
 Proof. exact (@reset_one_effect). Qed.
 
+(* when the reset task resets the game, the trajectory files grow by exactly one record (name, role, trajectory) per agent in the game, in the order of the agent table - or by nothing when save_trajectories is off *)
+Theorem C16_files_exact :
+  forall (V W G : Type) (wreset : W -> W) (winit : W -> role -> W * V) (cfg : config)
+         (s s' : @state V W G),
+       @reset_run V W G wreset winit cfg s = @Some (@state V W G) s' ->
+       match @agents V W G s with
+       | [] => false
+       | _ :: _ => true
+       end && @all_req V G (@agents V W G s) = true ->
+       @files V W G s' =
+       (if save_traj cfg
+        then
+         @files V W G s ++ @map (addr * @agent V G) (N * role * @traj V G) (@record_of V G) (@agents V W G s)
+        else @files V W G s).
+Proof. exact (@reset_files_exact). Qed.
+
+(* and no other label ever writes a record *)
+Theorem C16_files_frame :
+  forall (V W G : Type) (wstep : W -> V -> G -> W * V) (wreset : W -> W) (winit : W -> role -> W * V)
+         (goal : role -> V -> bool) (detect : list G -> G -> bool) (cfg : config) 
+         (s s' : @state V W G) (l : @label G),
+       @exec V W G wstep wreset winit goal detect cfg s l = @Some (@state V W G) s' ->
+       l <> @LRun G TReset -> @files V W G s' = @files V W G s.
+Proof. exact (@files_frame). Qed.
+
 (* in every reachable state every agent's trajectory has exactly one more state than actions and as many rewards as actions *)
 Theorem C16_wf :
   forall (V W G : Type) (wstep : W -> V -> G -> W * V) (wreset : W -> W) (winit : W -> role -> W * V)
@@ -143,5 +168,7 @@ Print Assumptions C16_refused.
 Print Assumptions C16_frame.
 Print Assumptions C16_handout.
 Print Assumptions C16_files.
+Print Assumptions C16_files_exact.
+Print Assumptions C16_files_frame.
 Print Assumptions C16_wf.
 Print Assumptions C16_one_label.
